@@ -9,11 +9,11 @@ from mc.core import Acc, Hang, horizon
 ID = "C13"
 RULE = ("E-INPUT: every ordered pair of end points from {0, +-m x 10^e : m in 11 mantissas, e in -6..9 (quick: step 3)} that "
         "meets the statement's span conditions, plus a seeded mantissa set, x m in 1..100 and the default, through the real "
-        "LinearScale().domain(..).ticks(m)/tickFormat(m); on every 5th domain also call sequences on one live scale (ticks, nice, ticks / ticks, domain, ticks / ticks, copy, nice) judged against the domain the scale then reports; on every 7th domain the plain cases again under two process-wide settings an application may have chosen (a 4-digit decimal context, DEBUG logging enabled). Oracle: step of form {1,2,5}x10^k, increasing, equal gaps, multiples "
+        "LinearScale().domain(..).ticks(m)/tickFormat(m); on every 5th domain also call sequences on one live scale (ticks, nice, ticks / ticks, domain, ticks / ticks, copy, nice) judged against the domain the scale then reports; domains with an end 1e-15 .. 1e-4 of a step beside a tick (magnitudes 1e-6..1e6); on every 7th domain the plain cases again under two process-wide settings an application may have chosen (a 4-digit decimal context, DEBUG logging enabled). Oracle: step of form {1,2,5}x10^k, increasing, equal gaps, multiples "
         "of the step, inside the domain, complete at both ends, count bounds, distinct texts that read back. "
         "Non-trivial: >= 2 ticks.")
 ASSUMPTIONS = ["float tolerances: 1e-6 of a step for gap equality/multiples/completeness, 1e-9 step for in-domain, 1e-3 step for read-back"]
-REQUIRED_COUNTERS = ("tick_sets", "reversed_domains", "step_1", "step_2", "step_5", "history_sequences", "threshold_cases", "ambient_setting_cases")
+REQUIRED_COUNTERS = ("tick_sets", "reversed_domains", "step_1", "step_2", "step_5", "history_sequences", "threshold_cases", "ambient_setting_cases", "near_tick_end_cases")
 EPS = 2.220446049250313e-16
 TICK_CAP = 10000
 
@@ -193,6 +193,26 @@ def threshold_domains(m):
                     yield start, start + span
 
 
+def near_tick_domains():
+    """Domains one of whose ends lies a hair inside or outside a tick of the step that the rule picks for them: the first
+    and the last tick are decided by a ceil and a floor of end / step, where slack terms are easily mis-scaled.
+    Magnitudes 1e-6 .. 1e6, spans 1e-3 .. 10 of the magnitude, offsets from 1 ulp-ish (absolute 1e-15, relative 1e-12) to
+    1e-4 of a step, on both sides, at either end."""
+    for mag in (1e-6, 1e-3, 1.0, 1e3, 1e6):
+        for rel_span in (9.5e-4, 0.95, 9.5):
+            span = mag * rel_span
+            for m in (10, 100):
+                k = math.floor(math.log10(span / m))
+                for lead in (1, 2, 5):
+                    step = lead * 10.0 ** k
+                    base = math.floor(mag / step) * step
+                    for off in (1e-15, -1e-15, 1e-12 * step, -1e-12 * step, 1e-10 * step, 1e-8 * step, -1e-8 * step, 1e-6 * step,
+                                1e-4 * step, -1e-4 * step):
+                        yield base + off, base + off + span, m          # lower end next to a tick
+                        yield base - span + off, base + off, m          # upper end next to a tick
+                        yield base + off + span, base + off, m          # reversed
+
+
 AMBIENT = ("decimal-context", "debug-logging")
 
 
@@ -205,11 +225,25 @@ def plan(tier, seed):
     shards.append({"vals": "seed", "seed": seed, "mod": 1, "rem": 0})
     for m0 in range(1, 101, 10):
         shards.append({"vals": "threshold", "ms": list(range(m0, min(101, m0 + 10)))})
+    shards.append({"vals": "nearticks"})
     return shards
 
 
 def run_shard(shard):
     acc = Acc()
+    if shard["vals"] == "nearticks":
+        for i, (a, b, m) in enumerate(near_tick_domains()):
+            if not lingrid.admissible(a, b):
+                continue
+            bad = judge(a, b, m, acc)
+            acc.evals += 1
+            acc.states += 1
+            acc.trans += 1
+            acc.counters["near_tick_end_cases"] += 1
+            if bad:
+                acc.violation({"a": a, "b": b, "m": m}, bad[0], bad[1], order=(5, i, m))
+        acc.sample({"a": a, "b": b, "m": m})
+        return acc
     if shard["vals"] == "threshold":
         for m in shard["ms"]:
             for a, b in threshold_domains(m):
